@@ -19,6 +19,7 @@ TEXT = ("I1: in commit every Ok(Some(_)) return is dominated by the single raw b
         "blocks. I4 = C02. I5: key <-> field mapping of Delta::to_json equals the field <- key mapping of the loader "
         "(flow analysis through accumulating mutations), and get_delta returns an untransformed clone. Does not "
         "decide graph invariants beyond what these imply.")
+TECHNIQUE = 'static analysis over rustc MIR: index formula and parent-set provenance in commit / loader, filter tables of get_anchors, writer/reader field tables of blocks'
 TRUSTED = ["rustc nightly MIR", "BTreeSet/BTreeMap semantics", "C02 (typestate) and C10/H2"]
 
 
